@@ -78,9 +78,10 @@ Print Assumptions C20_assign_deterministic.
    one shuffle for a run of slots) are equal to the Gray Paper definitions *)
 Theorem C20_extracted_model_is_spec : forall (H : bytes -> bytes),
   (forall (A : Type) (s : list A) (r : list N), F_fast s r = F s r) /\
+  (forall h l, qseq_fast H h l = qseq H h l) /\
   (forall (A : Type) (s : list A) (h : bytes), shuffle_fast H s h = shuffle_F H s h) /\
   (forall p e ts, assign_slots H p e ts = map (assign H p e) ts).
-Proof. exact (fun H => conj (@F_fast_is_F) (conj (@shuffle_fast_is_F H) (assign_slots_spec H))). Qed.
+Proof. exact (fun H => conj (@F_fast_is_F) (conj (qseq_fast_is_qseq H) (conj (@shuffle_fast_is_F H) (assign_slots_spec H)))). Qed.
 Print Assumptions C20_extracted_model_is_spec.
 
 (* ---- non-vacuity ---- *)
